@@ -81,7 +81,7 @@ func runC07(r *fw.Runner) {
 					r.Case("rules-"+typeName(typ), func(c *fw.Case) {
 						withIETF := c.Rng.Chance(3, 4)
 						proto := histProto(withIETF)
-						st := sut.NewStack(proto)
+						st := sut.SharedStack(proto)
 						h := &histCtx{r: c.Rng, proto: proto, code: uint64(18 + c.Rng.Intn(2)), keyType: kt, hasIETF: withIETF}
 						s := c07Step(h, typ, fc.name, nil)
 						c07Parse(c, st, ns, typ, s, c07Expect(typ, s), fc.name)
@@ -155,7 +155,7 @@ func runC07(r *fw.Runner) {
 				}
 				r.Case("rules-"+typeName(typ), func(c *fw.Case) {
 					proto := histProto(true)
-					st := sut.NewStack(proto)
+					st := sut.SharedStack(proto)
 					h := &histCtx{r: c.Rng, proto: proto, code: uint64(18 + c.Rng.Intn(2)), keyType: kt, hasIETF: true}
 					s := c07Step(h, typ, "valid", ru.mut)
 					c07Parse(c, st, ns, typ, s, ru.accept, ru.name)
@@ -255,7 +255,7 @@ func c07Boundaries(c *fw.Case, typ byte, ns string) {
 			c.Count("boundary-refuse", 1)
 		}
 		c.Sig("boundary", typ, name, expect)
-		_, err := sut.NewStack(p).Parser.Parse(ns, request)
+		_, err := sut.SharedStack(p).Parser.Parse(ns, request)
 		if (err == nil) != expect {
 			c.Failf("boundary:"+name, map[string]interface{}{"request": string(request), "boundary": name, "expected_accept": expect, "err": fmt.Sprint(err),
 				"MaxOperationSize": p.MaxOperationSize, "MaxOperationHashLength": p.MaxOperationHashLength, "MaxDeltaSize": p.MaxDeltaSize, "NonceSize": p.NonceSize},
@@ -350,7 +350,7 @@ func c07ConfigLists(c *fw.Case, ns string) {
 		c.Evals(1)
 		c.Count("config-variations", 1)
 		c.Sig("cfg", typ, name, expect)
-		_, err := sut.NewStack(p).Parser.Parse(ns, s.Built.Request)
+		_, err := sut.SharedStack(p).Parser.Parse(ns, s.Built.Request)
 		if (err == nil) != expect {
 			c.Failf("config:"+name, map[string]interface{}{"request": string(s.Built.Request), "variation": name, "expected_accept": expect, "err": fmt.Sprint(err),
 				"Patches": p.Patches, "SignatureAlgorithms": p.SignatureAlgorithms, "KeyAlgorithms": p.KeyAlgorithms, "MultihashAlgorithms": p.MultihashAlgorithms},
